@@ -3,6 +3,7 @@ package props
 import (
 	"encoding/json"
 	"fmt"
+	"go/token"
 	"go/types"
 	"sort"
 	"strings"
@@ -74,6 +75,7 @@ func c18(r *core.Run) {
 	r.Rule("V1", "reference/data/delete vocabulary: prefix and suffix constants parse (with a placeholder id) to an object with exactly the members the unmarshalers and the store's valueObject declare; the delete-action literal is the same in service and store and uses the action constant; 'data' is the data-value member everywhere", 6)
 	r.Rule("V2", "envelopes: {result,resource,error}, {model,collection,query} and {get,call} have the same JSON member names in the service's response structs and the client package's parse structs", 3)
 	r.Rule("V3", "decoders own their bytes: no UnmarshalJSON method of the library keeps (a slice or byte-slice conversion of) its input parameter in the receiver - the json.Unmarshaler contract lets the caller reuse the buffer, after which a retained alias changes the value's JSON and its equality", 3)
+	r.Rule("V4", "value classes are mutually exclusive: in the store's value parser every assignment of an object class (reference, delete action, data / primitive-in-data) happens on a path where exactly one of the members rid, action, data is known to be present and the other two are known to be absent - an object mixing them is invalid, not silently classified by whichever member is tested first", 3)
 	r.Rule("B1", "buffer layout: each make([]byte,n) buffer in Ref.MarshalJSON, SoftRef.MarshalJSON and MarshalDataValue is exactly filled for every input length", 3)
 	r.Rule("B2", "escaping comes from the encoder: the only variable-length segment copied into those buffers is the first result of json.Marshal", 3)
 
@@ -266,6 +268,67 @@ func c18(r *core.Run) {
 				}
 			}
 			r.Check(bad == "", "V3", core.FuncName(fn), "does-not-retain-input", p.Pos(fn.Pos()), "the input bytes are copied or only parsed, never kept", "UnmarshalJSON keeps its input slice in "+bad+": when the caller (json.Decoder, a read loop, a database item callback) reuses the buffer the decoded value silently changes - it marshals to other JSON and compares equal to different values")
+		}
+	}
+
+	// ---- V4 --------------------------------------------------------------
+	if um := methodNamed(p, "store", "Value", "UnmarshalJSON"); um != nil && vo != nil {
+		member := map[string]string{} // field name -> json key
+		for fname, t := range jsonTags(vo) {
+			switch t.Key {
+			case "rid", "action", "data":
+				member[fname] = t.Key
+			}
+		}
+		n := 0
+		var umBlocks []*ssa.BasicBlock
+		for _, h := range p.Helpers(um) {
+			umBlocks = append(umBlocks, h.Blocks...)
+		}
+		for _, b := range umBlocks {
+			for _, in := range b.Instrs {
+				st, ok := in.(*ssa.Store)
+				if !ok {
+					continue
+				}
+				f, ok := core.FieldOf(st.Addr)
+				if !ok || f.Name != "Type" || !strings.HasSuffix(f.Struct, "Value") {
+					continue
+				}
+				if _, isC := st.Val.(*ssa.Const); !isC {
+					continue
+				}
+				present, absent := map[string]bool{}, map[string]bool{}
+				for _, ed := range ctxEdges(p, st, um, 0) {
+					ci := core.Cond(ed.If.Cond)
+					if ci.Kind != "nilcmp" || !ci.HasFld {
+						continue
+					}
+					key, isMember := member[ci.Field.Name]
+					if !isMember || !strings.HasSuffix(ci.Field.Struct, "valueObject") {
+						continue
+					}
+					truth := ed.Succ == 0
+					if ci.Negate {
+						truth = !truth
+					}
+					if (ci.Op == token.NEQ) == truth {
+						present[key] = true
+					} else {
+						absent[key] = true
+					}
+				}
+				if len(present) == 0 {
+					continue // not an object class (plain primitive)
+				}
+				n++
+				good := len(present) == 1 && len(absent) == 2
+				r.Check(good, "V4", core.FuncName(um), fmt.Sprintf("class(%s)-assigned-only-when-other-members-absent", strings.Join(core.SortedKeys(present), "+")), p.InstrPos(st),
+					"exactly one member present, the other two absent", fmt.Sprintf("an object class is assigned while only %v is known present and %v known absent: an object mixing rid / action / data members is classified by its first-tested member instead of being rejected as invalid", core.SortedKeys(present), core.SortedKeys(absent)))
+			}
+		}
+		if n == 0 {
+			r.Bad("V4", core.FuncName(um), "assigns-object-classes", p.Pos(um.Pos()), "no class assignment under a member test found (rule went vacuous)")
 		}
 	}
 
